@@ -6,6 +6,7 @@ package main
 import (
 	"fmt"
 	"strings"
+	"sync/atomic"
 	"time"
 
 	"github.com/gorilla/websocket"
@@ -202,7 +203,7 @@ func (r *Run) afterCloseQuiet(f *fsession, cs string, wait time.Duration) {
 func runC14(r *Run) {
 	installHooks()
 	hub.reset()
-	r.st.Rule = "Close injected at the states the property names — idle, k requests in flight, dispatcher busy in a handler with frames queued, reader holding an undelivered frame (tcp.before-add gate), a caller about to enqueue (conn.write.before-enqueue gate), recovery backing off between failed attempts, recovery authenticating (peer silent), give-up about to fire / already fired — on TCP and WebSocket; oracles: Close returns within 1 s, exactly one close callback, no connection, frame or after-reconnect callback afterwards, no panic; the forced lifecycle actions are replayed by Model/Life.v and the final observables (callbacks, connections, open sockets, goroutines) compared. distinct = distinct request lines"
+	r.st.Rule = "Close injected at the states the property names — idle, k requests in flight, dispatcher busy in a handler with frames queued, reader holding an undelivered frame (tcp.before-add gate), a caller about to enqueue (conn.write.before-enqueue gate), two closers of one connection (reader inside Close when the user closes), writer blocked in the socket write (stalled peer), recovery backing off between failed attempts, recovery authenticating (peer silent), give-up about to fire / already fired — on TCP and WebSocket; oracles: Close returns within 1 s, exactly one close callback, no connection, frame or after-reconnect callback afterwards, no panic; the forced lifecycle actions are replayed by Model/Life.v and the final observables (callbacks, connections, open sockets, goroutines) compared. distinct = distinct request lines"
 	for _, trans := range []string{"tcp", "ws"} {
 		ws := trans == "ws"
 		// idle
@@ -289,6 +290,49 @@ func runC14(r *Run) {
 			f.close()
 		}
 	}
+	// two closers of one connection: the reader (peer dropped) is inside Close - held at its log line - when the
+	// user's Close closes the same connection
+	for _, trans := range []string{"tcp", "ws"} {
+		if f, err := openF(trans); err == nil {
+			held := make(chan struct{})
+			f.tc.log.setHold("close conn, err", held)
+			f.lk.drop()
+			if f.tc.log.waitCount("close conn, err", 1, 2*time.Second) {
+				done := make(chan string, 1)
+				go func() { _, p := closeTimed(f.tc); done <- p }()
+				time.Sleep(100 * time.Millisecond)
+				f.tc.log.clearHold("close conn, err")
+				close(held)
+				select {
+				case p := <-done:
+					if p != "" {
+						r.violate(Violation{What: "Close concurrent with the reader closing the connection: " + p, Case: trans + " two closers"})
+					}
+				case <-time.After(4 * time.Second):
+					r.violate(Violation{What: "Close concurrent with the reader closing the connection hung", Case: trans + " two closers"})
+				}
+				time.Sleep(100 * time.Millisecond)
+				r.afterCloseQuiet(f, trans+" two closers", 200*time.Millisecond)
+			} else {
+				f.tc.log.clearHold("close conn, err")
+				close(held)
+			}
+			r.st.Evaluations++
+			f.close()
+		}
+	}
+	// Close while the writer is blocked in the socket write (stalled peer)
+	if f, err := openF("tcp", client.WriteQueueSize(2)); err == nil {
+		body := bigBody()
+		for i := 0; i < 16; i++ {
+			f.tc.doAsync(uint32(60+i%8), body, fReq)
+			time.Sleep(5 * time.Millisecond)
+		}
+		r.checkClose(f.tc, "tcp writer blocked in the socket write (stalled peer)")
+		r.afterCloseQuiet(f, "tcp writer blocked in the socket write", 300*time.Millisecond)
+		r.lifeCase("tcp.close-stalled-writer", 0, "DO DO UC X.0.r X.0.w X.0.d", f.observe(true), false)
+		f.close()
+	}
 	// recovery backing off between failed attempts
 	if f, err := openF("tcp"); err == nil {
 		f.tcp.stopListening()
@@ -367,7 +411,7 @@ func openFAuth() (*fsession, error) {
 func runC16(r *Run) {
 	installHooks()
 	hub.reset()
-	r.st.Rule = "N cycles (N = 5 and 20) of each kind — dial+close, dial+peer drop+recover, dial+server close packet, failed dial — on TCP and WebSocket; after quiescence the number of library goroutines serving connections and the sockets still open at the peer must not grow with N (3 per open connection, none after Close); the lifecycle actions are replayed by Model/Life.v. distinct = distinct request lines"
+	r.st.Rule = "N cycles (N = 5 and 20) of each kind — dial+close, dial+peer drop+recover, dial+server close packet, failed dial, stalled peer+close — on TCP and WebSocket; after quiescence the number of library goroutines serving connections and the sockets still open at the peer must not grow with N (3 per open connection, none after Close); the lifecycle actions are replayed by Model/Life.v. distinct = distinct request lines"
 	ns := []int{5}
 	if r.thorough() {
 		ns = []int{5, 20}
@@ -424,6 +468,35 @@ func runC16(r *Run) {
 			}
 		}
 	}
+	// stalled peer + close cycles: the writer is blocked in the socket write when the connection is closed
+	{
+		base := settle()
+		N := 3
+		var peers []*fsession
+		for i := 0; i < N; i++ {
+			if f, err := openF("tcp", client.WriteQueueSize(2)); err == nil {
+				body := bigBody()
+				for j := 0; j < 16; j++ {
+					f.tc.doAsync(uint32(60+j%8), body, fReq)
+					time.Sleep(3 * time.Millisecond)
+				}
+				f.tc.cli.Close(nil)
+				peers = append(peers, f)
+			}
+		}
+		time.Sleep(fReq + 200*time.Millisecond)
+		if d := settle() - base; d != 0 {
+			r.violate(Violation{What: fmt.Sprintf("%d connection goroutines left after %d cycles of stalled peer + Close", d, N), Case: "tcp stalled peer"})
+		}
+		for _, f := range peers {
+			o := f.observe(true)
+			if o.open != 0 {
+				r.violate(Violation{What: fmt.Sprintf("%d sockets still open at the peer after Close with the writer blocked in the socket write", o.open), Case: "tcp stalled peer"})
+			}
+			f.close()
+		}
+		r.st.Evaluations++
+	}
 	// server close packet cycles (TCP) and failed dials
 	if f, err := openF("tcp"); err == nil {
 		lk := f.lk
@@ -466,6 +539,7 @@ func runC16(r *Run) {
 func (r *Run) boundedDo(f *fsession, ch chan doResult, what string) doResult {
 	bound := fReq + fDial + fAuth + 1200*time.Millisecond
 	res, ok := awaitDo(ch, bound)
+	r.st.Evaluations++
 	if !ok {
 		r.violate(Violation{What: fmt.Sprintf("a request call did not return within request+dial+auth timeouts + slack (%v): %s", bound, what), Case: what, Extra: goroutineDump()[:3000]})
 		return doResult{}
@@ -479,7 +553,7 @@ func (r *Run) boundedDo(f *fsession, ch chan doResult, what string) doResult {
 func runC06(r *Run) {
 	installHooks()
 	hub.reset()
-	r.st.Rule = "peer scripts over {silence, drop after every byte k of the response frame, server close packet, garbage, refused dials} x phases {auth, steady state, reconnect} x calls issued before, during and after the fault, on TCP (and WebSocket where expressible): every request call must return a response or an error within request+dial+auth timeouts + slack and never panic (watchdog, recover(), goroutine dump as replay); waiter-sweep and nil-conn regressions are scripted; selected histories are replayed by Model/Waiters.v and Model/Life.v. distinct = distinct request lines"
+	r.st.Rule = "peer scripts over {silence, drop after every byte k of the response frame, server close packet, garbage, refused dials, stalled peer that stops reading (write queue fills), WebSocket re-dial whose upgrade is never answered} x phases {auth, steady state, reconnect} x calls issued before, during and after the fault, on TCP (and WebSocket where expressible): every request call must return a response or an error within request+dial+auth timeouts + slack and never panic (watchdog, recover(), goroutine dump as replay); waiter-sweep and nil-conn regressions are scripted; selected histories are replayed by Model/Waiters.v and Model/Life.v. distinct = distinct request lines"
 	// silence
 	for _, trans := range []string{"tcp", "ws"} {
 		if f, err := openF(trans); err == nil {
@@ -606,6 +680,55 @@ func runC06(r *Run) {
 		}
 		f.close()
 	}
+	// stalled peer (connection open, peer stops reading): the writer blocks in the socket write, the queue fills;
+	// every call still returns - a response never comes, so an error - within the bound
+	if f, err := openF("tcp", client.WriteQueueSize(2)); err == nil {
+		body := bigBody()
+		var chans []chan doResult
+		for i := 0; i < 24; i++ {
+			chans = append(chans, f.tc.doAsync(uint32(60+i%8), body, fReq))
+			time.Sleep(5 * time.Millisecond)
+		}
+		full := 0
+		for i, ch := range chans {
+			res := r.boundedDo(f, ch, fmt.Sprintf("tcp stalled peer, 1 MiB request %d of 24, write queue of 2", i))
+			if res.err != nil && strings.Contains(res.err.Error(), "queue full") {
+				full++
+			}
+		}
+		r.st.Dist["c06.stalled.queue-full-errors"] += full
+		r.st.Evaluations++
+		r.checkClose(f.tc, "tcp stalled peer, writer blocked in the socket write")
+		f.close()
+	}
+	// WebSocket re-dial whose HTTP upgrade is never answered: calls before, during and after still return
+	if f, err := openF("ws"); err == nil {
+		atomic.StoreInt32(&f.ws.stall, 1)
+		ch0 := f.tc.doAsync(30, nil, fReq)
+		f.lk.nextRequest(time.Second)
+		f.lk.drop()
+		r.boundedDo(f, ch0, "ws call in flight, connection dropped, re-dial stalls in the upgrade")
+		waitUntil(2*time.Second, func() bool { return atomic.LoadInt32(&f.ws.stalled) > 0 })
+		for i := 0; i < 4; i++ {
+			r.boundedDo(f, f.tc.doAsync(31, nil, fReq), fmt.Sprintf("ws call %d while the re-dial stalls in the HTTP upgrade", i))
+			time.Sleep(250 * time.Millisecond)
+		}
+		atomic.StoreInt32(&f.ws.stall, 0)
+		nl := f.followNewest(2500 * time.Millisecond)
+		if nl == nil {
+			r.violate(Violation{What: "no recovery after the peer answers upgrades again", Case: "ws stalled upgrade"})
+		} else {
+			ch3 := f.tc.doAsync(33, nil, fReq)
+			if q := nl.nextRequest(time.Second); q != nil {
+				nl.sendFrame(respFrame(1, 33, q.Rid, 0, []byte("back")))
+			}
+			if res := r.boundedDo(f, ch3, "ws call after upgrades are answered again"); res.pkt == nil {
+				r.violate(Violation{What: "service not re-established after stalled upgrades: " + resultStr(res), Case: "ws stalled upgrade"})
+			}
+		}
+		r.st.Evaluations++
+		f.close()
+	}
 	// auth phase: the peer never answers AUTH
 	{
 		p := newTCPPeer()
@@ -658,4 +781,14 @@ func (f *fsession) observeNoProbe() lifeObs {
 
 func pbCloseBody(code int, reason string) []byte {
 	return pbBytes(&control.Close{Code: control.Close_Code(code), Reason: reason})
+}
+
+// bigBody: a request body of about 1 MiB that gzip cannot shrink much.
+func bigBody() *control.Close {
+	rng := NewRNG(99)
+	b := make([]byte, 1<<20)
+	for i := range b {
+		b[i] = "0123456789abcdefghijklmnopqrstuvwxyzABCDEFGHIJKLMNOPQRSTUVWXYZ-_"[rng.Intn(64)]
+	}
+	return &control.Close{Reason: string(b)}
 }
